@@ -6,6 +6,7 @@
 
 #include <chrono>
 #include <list>
+#include <map>
 #include <numeric>
 #include <optional>
 #include <unordered_map>
@@ -34,6 +35,7 @@ template<typename key_type, typename value_type, thread_safe thread_safe_type = 
 class utlru_cache
 {
     using keyed_iterator = typename std::unordered_map<key_type, size_t>::iterator;
+    using ttl_iterator   = std::multimap<std::chrono::steady_clock::time_point, size_t>::iterator;
 
 public:
     /**
@@ -257,7 +259,7 @@ public:
 
             while (m_used_size > 0)
             {
-                size_t   ttl_idx = *m_ttl_list.begin();
+                size_t   ttl_idx = m_ttl_list.begin()->second;
                 element& e       = m_elements[ttl_idx];
                 if (now >= e.m_expire_time)
                 {
@@ -299,7 +301,7 @@ private:
         /// The iterator into the lru data structure.
         std::list<size_t>::iterator m_lru_position;
         /// The iterator into the ttl data structure.
-        std::list<size_t>::iterator m_ttl_position;
+        ttl_iterator m_ttl_position;
         /// The element's value.
         value_type m_value;
     };
@@ -357,13 +359,13 @@ private:
 
         auto keyed_position = m_keyed_elements.emplace(key, element_idx).first;
 
-        m_ttl_list.emplace_back(element_idx);
+        auto ttl_position = m_ttl_list.emplace(expire_time, element_idx);
 
         element& e         = m_elements[element_idx];
         e.m_value          = std::move(value);
         e.m_expire_time    = expire_time;
         e.m_lru_position   = m_lru_end;
-        e.m_ttl_position   = std::prev(m_ttl_list.end());
+        e.m_ttl_position   = ttl_position;
         e.m_keyed_position = keyed_position;
 
         ++m_lru_end;
@@ -382,8 +384,10 @@ private:
         e.m_expire_time = expire_time;
         e.m_value       = std::move(value);
 
-        // push to the end of the ttl list
-        m_ttl_list.splice(m_ttl_list.end(), m_ttl_list, e.m_ttl_position);
+        // Reinsert into the ttl list at the new expire time, update_ttl() can change the uniform ttl
+        // so a later write does not necessarily expire later.
+        m_ttl_list.erase(e.m_ttl_position);
+        e.m_ttl_position = m_ttl_list.emplace(expire_time, element_idx);
 
         do_access(e);
     }
@@ -438,7 +442,7 @@ private:
     {
         if (m_used_size > 0)
         {
-            size_t   ttl_idx = *m_ttl_list.begin();
+            size_t   ttl_idx = m_ttl_list.begin()->second;
             element& e       = m_elements[ttl_idx];
 
             if (now >= e.m_expire_time)
@@ -468,8 +472,8 @@ private:
     std::unordered_map<key_type, size_t> m_keyed_elements;
     /// The lru sorted list from most recently used (head) to least recently used (tail).
     std::list<size_t> m_lru_list;
-    /// The uniform ttl sorted list.
-    std::list<size_t> m_ttl_list;
+    /// The ttl list sorted by expire time.
+    std::multimap<std::chrono::steady_clock::time_point, size_t> m_ttl_list;
     /// The lru end/open list end.
     std::list<size_t>::iterator m_lru_end;
 };
